@@ -11,12 +11,16 @@ Each change was written by a fresh sub-agent that saw only the property text and
 Round 1 (19 seeds), first run: 8 caught by the property's own check, 3 by another property's check, 8 missed; after strengthening all 19 are caught.
 Round 2 (19 seeds, each asked to use a different function / clause than round 1), first run: 9 caught by the property's own check, 2 by another property's check only, 1 undecided (ANALYSIS-ERROR, exit 2), 7 missed; after strengthening all 19 are caught by the property's own check.
 Round 3 (19 seeds, each given both earlier attempts and asked for a third function / clause), first run: 8 caught by the property's own check, 4 by another property's check only, 1 undecided (exit 2), 6 missed; after strengthening 18 are caught by the property's own check and 1 (C12-r3) no longer breaks the property on the repaired tree (see its meta.json).
+Round 4 (19 seeds, each given the three earlier attempts and asked for a fourth function / clause), first run: 4 caught by the property's own check, 3 by another property's check only, 1 undecided (exit 2), 11 missed; after strengthening 18 are caught by the property's own check and 1 (C06-r4) no longer breaks the property on the repaired tree (its meta.json says why).
+
+The rows show the state on the current /repo HEAD. /repo has received repairs since the seeds were written; a patch that no longer applied was re-based by me (the meta.json says so), and three seeds are behaviour-preserving on the repaired tree because the defect they leaned on was repaired at its root (C12-r3, C06-r4, C13-r2: demo exit 0 with the patch; for those the meta records the confirmation at the seeder's base commit).
 """
 NOTES = """
 Baseline observations reported by the seeders and triaged by me:
 round 1 - a tag naming the serializer base raised NotImplementedError (C19, fixed 33ebaa4, rule extended); a bound variable with a falsy value was dropped as comparator operand (C01/C02, fixed 1e65682, new rule EP-OPERAND); next_rule over the same variables as the previous branch never fired (C08, fixed d23cb3d, RULE-SELECT key-includes-conclusions).
 round 2 - an attribute-equality join between two variables of one mapped hierarchy raised InvalidRequestError / returned nothing (C07, fixed 35e79d8, SQL-VARID same-hierarchy-join); a relationship path on the non-selected variable of a join is answered on the selected row (C07, the known SQL-VARID finding, second input recorded); interleaved iterators of one rule query suppress each other's results (C03, new rule CARRY-SHARED, known finding); a fresh nested loop over a generator-backed variable truncates (C03, the known CARRY-2 finding); query objects pin the instances they ranged over (C20, the known STRONG-REF roots). While closing the C10 miss LAZY-BUILD reported that building x[key] formats the user key (C10, fixed 8d23fc0).
 round 3 - contains(column, text) translated with LIKE (C07, fixed 36df0dd); a second equality between two joined variables dropped (C07, fixed 6dde094); an equality join inside or_ (C07, fixed fd9c08b); branches written after a first evaluation cut a refinement out of the tree (C08, fixed 1b70461); a bound value under not_ never flagged false (C01, fixed 8854632, a regression of my 1e65682); a falsy symbolic-function result as comparator operand (C12, fixed 4974803); exists() keyed by the quantified variable and silent on failure (C01, fixed 5139c33); for_all over an empty domain raising TypeError (C01, fixed e00fad1); for_all silent about rejected bindings (C01, fixed fbec162); or_ over a predicate call built as the union form (C02, fixed 23eb645); a shared attribute node reporting a stale truth flag (C01, fixed 274cad8); an alternative after a next_rule firing although the base fired (C08, known finding). Not acted on: IndexError for x.items[0] on an empty list (arguably correct), a bare variable as a condition, hasattr probes on user values during construction (listed as an assumption of C10), builtin-typed collections in match patterns (outside the documented grammar).
+round 4 - repaired in /repo, each with a demo under findings/demos and a rule that reports the defect on the pre-repair tree: OR markers not reset after an abandoned evaluation (C03, 0023d85); the conditions root cached across queries (C03, 44adde2); class-diagram accessors blind to parallel edges (C17, 76b905b); set literals in membership (C07, e323902); an attribute chain through an index / call / flatten translated as a cross join (C07, 9a6c065); Conclusion._name_ formatting user data at build time (C10, 80ad2cb); falsy Symbols never recorded (C15/C16, 3762e87); x.f.extend(x.f) not terminating and slice assignment from an iterator (C16, 314e3a1); a field adopting the assigned monitored container (C16, ea04832); a predicate as the only condition of a nested query taken for an operand (C12, 0bb1cf1); for_all answering every further value with the first call result (C12, 4f512f3); all monitored containers comparing equal (C15, a2fb781); relations of an unswept dead instance taking part in inference (C14, e33bf11); nested match of an unrelated type (C11, 451dfe4); pattern literals against collections of builtin values (C11, f6c4920 - declined in round 3 as outside the grammar, the property's wording 'membership for collection attributes' covers it); match_any below a flattened element (C11, 2d8299b); registered int / tuple subclasses losing their tag (C18, 1f6cd1f); an empty collection aliasing the DAO's list (C04, 8050331); Union[None, X] and X | None (C17, 4e55637); a literal False condition (C01, ee3fa38); an instance dying during enumeration reported as None (C13, 04aff6d). Recorded as known findings: an expression node has one parent (C03 SHARED-TREE); a cycle entered through an alternatively mapped object (C04 DAO-ORDER); assignment to a collection field after an inference reached it (C15 PD-REPLACE - no retraction in the graph). Not acted on: or_ over the flatten of an empty collection (under the join reading of flatten the flattened element is a variable with an empty domain, so no assignment exists); duplicates from the union form of or_ (the property states membership); a logical expression passed as a call argument raises KeyError (loud); nested / local serializer classes are not resolvable from their tag (loud, ClassNotFoundError); ClassDiagram rendering raising TypeError with the installed rustworkx_utils (the two always-failing tests); equal-but-distinct domain members (`[1, 1, 2]`) de-duplicated on replay (the known CARRY-2 finding); `_conclusion_` left over after an abandoned evaluation (could not be turned into a wrong answer in 60 trials, see DESIGN.md limits).
 """
 
 
@@ -35,7 +39,7 @@ def row(d):
 def main():
     dirs = sorted(d for d in os.listdir(ROOT) if os.path.isdir(os.path.join(ROOT, d)))
     out = [HEAD]
-    for title, sel in (("Round 1", [d for d in dirs if "-r" not in d]), ("Round 2", [d for d in dirs if d.endswith("-r2")]), ("Round 3", [d for d in dirs if d.endswith("-r3")])):
+    for title, sel in (("Round 1", [d for d in dirs if "-r" not in d]), ("Round 2", [d for d in dirs if d.endswith("-r2")]), ("Round 3", [d for d in dirs if d.endswith("-r3")]), ("Round 4", [d for d in dirs if d.endswith("-r4")])):
         out.append(f"\n## {title}\n\n| seed | change (one line) | needs to manifest | caught by (rules) | first run |\n|---|---|---|---|---|")
         out += [row(d) for d in sel]
     out.append(NOTES)
